@@ -1421,7 +1421,10 @@ theorem scan_exprs (env : Env) (spec : ArgSpec) (mode : Mode) :
             rcases hq with rfl | hq
             · obtain ⟨d, n0, hd, _, hn0, he1, he2⟩ := classify_opt arg n v eq hcl
               cases eq with
-              | false => exact absurd (he2 rfl).2 (by simpa using hv)
+              | false =>
+                have hv0 := (he2 rfl).2
+                subst hv0
+                exact absurd (by simp [takesNext]) hv
               | true =>
                 refine ⟨v, mode, rfl, Or.inr (Or.inl ⟨arg, by simp, d ++ n0, he1 rfl, ?_⟩), Or.inl rfl⟩
                 rcases hd with rfl | rfl <;> simpa using hn0
@@ -1642,7 +1645,7 @@ theorem scan_env_indep (e1 e2 : Env) (hs : SameSyntax e1 e2) (spec : ArgSpec) (m
     ∀ (argv : List Str) (stdin : Str) (pending : Option Str),
       scan e1 spec mode argv stdin pending = scan e2 spec mode argv stdin pending := by
   have hopt : ∀ n eq, optName e1 spec n eq = optName e2 spec n eq := by
-    intro n eq; simp only [optName, resolveOpt, hs.1, hs.2]
+    intro n eq; simp only [optName, resolveOpt, hs.1, hs.2.1]
   intro argv
   induction argv with
   | nil => intro stdin pending; cases pending <;> simp [scan]
@@ -1657,7 +1660,7 @@ theorem scan_env_indep (e1 e2 : Env) (hs : SameSyntax e1 e2) (spec : ArgSpec) (m
       | source => rfl
       | stdin => simp only [ih]
       | dashdash => rfl
-      | opt n eq v => simp only [hopt, ih]
+      | opt n eq v => simp only [hopt, ih, takesNext, hs.2.2]; rfl
       | pos => simp only [ih]
 
 section congr
@@ -2019,7 +2022,8 @@ theorem scan_items (env : Env) (spec : ArgSpec) (hwf : WF spec) (mode : Mode) (r
       | true =>
         rw [hf] at hopt
         simp only [hf, if_true] at hval
-        have hve : v.isEmpty = false := by cases v <;> simp at hval ⊢
+        have hve0 : v.isEmpty = false := by cases v <;> simp at hval ⊢
+        have hve : takesNext env true v = false := by simp [takesNext, hve0]
         simp only [renderItems, renderItem, hf, if_true, List.cons_append, List.nil_append, scan,
           classify_opt_eq f c t' v hc hd hm.noEq, hopt, hve, Bool.false_eq_true, if_false,
           ih stdin hok' hag', expectScan, hm.resolves, Option.getD_some, stdinAfter]
@@ -2030,8 +2034,9 @@ theorem scan_items (env : Env) (spec : ArgSpec) (hwf : WF spec) (mode : Mode) (r
         rw [hf] at hopt
         simp only [hf, Bool.false_eq_true, if_false] at hval
         have hval' : (['-','-'] : Str).isPrefixOf v = false := hval
+        have htn : takesNext env false [] = true := by simp [takesNext]
         simp only [renderItems, renderItem, hf, Bool.false_eq_true, if_false, List.cons_append, List.nil_append,
-          scan, classify_opt_sp f c t' hc hd hm.noEq, hopt, List.isEmpty_nil, if_true, hval',
+          scan, classify_opt_sp f c t' hc hd hm.noEq, hopt, htn, if_true, hval',
           ih stdin hok' hag', expectScan, hm.resolves, Option.getD_some, stdinAfter]
         cases scan env spec mode rest (stdinAfter its stdin) none with
         | error e => rfl
